@@ -2617,7 +2617,7 @@ def _replace_lambda_with_function(source: str) -> str:
         source, find, replace, yield_match=True
     ):
         _, call_args, call_keywords, _, sign_args = template_match
-        if sign_args.kw_defaults:
+        if sign_args.kw_defaults or sign_args.defaults:
             continue
 
         expected_call_args = [
